@@ -439,6 +439,13 @@ func init() {
 		}
 		dt, ok1 := dst.Typ.(*types.Pointer)
 		st, ok2 := src.Typ.(*types.Pointer)
+		if ok1 && (!ok2 || !types.Identical(dt.Elem().Underlying(), st.Elem().Underlying())) && types.Identical(dt.Elem().Underlying(), src.Typ.Underlying()) {
+			// the prepared object is a value of the destination's element type
+			if dp := dst.Val.(VPtr); dp.C != nil {
+				store(dp.C, src.Val)
+				return VBool{BoolC(true)}
+			}
+		}
 		if !ok1 || !ok2 || !types.Identical(dt.Elem().Underlying(), st.Elem().Underlying()) {
 			return VBool{BoolC(false)}
 		}
@@ -503,6 +510,23 @@ func init() {
 		y := bigOf(e, a[2])
 		e.oblige(Not(IntCmp("=", y, IntC(bigZero()))), "panic", "big.Int division by zero")
 		return setBig(a[0], IntBin("mod", bigOf(e, a[1]), y))
+	}
+	shiftBy := func(e *Exec, v Value) Term {
+		n := e.concretise(a2term(v))
+		if !n.Const || n.U.Sign() < 0 || n.U.BitLen() > 16 {
+			e.fail("big.Int shift by a non-constant amount")
+		}
+		return IntC(new(big.Int).Lsh(big.NewInt(1), uint(n.U.Uint64())))
+	}
+	intrinsics[B+"Lsh"] = func(e *Exec, a []Value) Value {
+		return setBig(a[0], IntBin("*", bigOf(e, a[1]), shiftBy(e, a[2])))
+	}
+	intrinsics[B+"Rsh"] = func(e *Exec, a []Value) Value {
+		return setBig(a[0], IntBin("div", bigOf(e, a[1]), shiftBy(e, a[2])))
+	}
+	intrinsics[B+"Abs"] = func(e *Exec, a []Value) Value {
+		x := bigOf(e, a[1])
+		return setBig(a[0], Ite(IntCmp("<", x, IntC(bigZero())), IntBin("-", IntC(bigZero()), x), x))
 	}
 	intrinsics[B+"Set"] = func(e *Exec, a []Value) Value { return setBig(a[0], bigOf(e, a[1])) }
 	intrinsics[B+"Neg"] = func(e *Exec, a []Value) Value {
@@ -742,6 +766,8 @@ func (e *Exec) flatKey(v Value, depth int) string {
 
 // concretise returns the constant a term is forced to by the current path condition, or the
 // term itself when more than one value is possible.
+func a2term(v Value) Term { return v.(VInt).T }
+
 func (e *Exec) concretise(t Term) Term {
 	if t.Const {
 		return t
